@@ -1,7 +1,8 @@
 """Check configuration for C08 (loaded by bin/props.py)."""
-from props_common import STD_ASSUME
+from props_common import STD_ASSUME, KNOBS_ENGINES, KNOBS_ASSUME
 
 CFG = {
+    "knobs": KNOBS_ENGINES,
     "pkg": "banyand/internal/verif/props/c08",
     "level": "exploration",
     "level_text": ("differential + model check on simulated states: the same generated write/clock history is executed on twin real standalone nodes that differ only in index-rule configuration "
@@ -16,5 +17,5 @@ CFG = {
         "real": ["banyand/stream + banyand/measure engines (element index, skipping index, tag filters, block/part pruning)", "pkg/query/logical (criteria -> index filters / tag filters)", "pkg/index/inverted (bluge)", "liaison front-end, banyand/query"],
         "stub": ["metadata registry (simmeta)", "gRPC transport", "clock (testing/synctest)"],
     },
-    "assumptions": STD_ASSUME,
+    "assumptions": STD_ASSUME + [KNOBS_ASSUME],
 }
